@@ -229,8 +229,10 @@ func Resume(
 			end += int64(dataOffset)
 		}
 		if err := t.Truncate(end); err != nil {
+			verifhook.OnTruncate(rw, end, err)
 			return err
 		}
+		verifhook.OnTruncate(rw, end, nil)
 	}
 	// Seek to the end of last skipped block where the writer should resume writing.
 	_, err = dataWriter.Seek(sectionOffset, io.SeekStart)
